@@ -72,7 +72,7 @@ Proof. cbn [dom c_neg enc]. intros D. unfold write_int_neg_chk, enc_neg.
     f_equal. f_equal. lia.
   - destruct ((0 <=? Z.abs v)%Z && (Z.abs v <? 4294967296)%Z) eqn:E2; [|lia]. f_equal. f_equal. lia. Qed.
 
-(* ------------------------------------------------------------------ strings: code points, UTF-8 bytes, CHARACTER count prefix *)
+(* ------------------------------------------------------------------ strings: code points, UTF-8 bytes, length prefix *)
 Definition str := list N.
 Definition utf8_cp (c:N) : list byte :=
   if c <? 128 then [c]
@@ -117,46 +117,106 @@ Proof. induction 1 as [|c t Hc _ IH]; [reflexivity|]. cbn [utf8 flat_map]. fold 
 Lemma utf8_dec_ascii s : ascii s -> utf8_dec s = Some s.
 Proof. induction 1 as [|c t Hc _ IH]; [reflexivity|]. cbn [utf8_dec]. destruct (c <? 128) eqn:E; [|lia]. rewrite IH. reflexivity. Qed.
 
-(* write_string / read_string *)
+(* every Unicode scalar value (code points 0 .. U+10FFFF without the surrogates U+D800 .. U+DFFF: what a Python str encodes to UTF-8) *)
+Definition scalar (c:N) : bool := (c <? 55296) || ((57344 <=? c) && (c <? 1114112)).
+Definition text (s:str) : Prop := Forall (fun c => scalar c = true) s.
+Lemma ascii_text s : ascii s -> text s.
+Proof. apply Forall_impl. intros c H. unfold scalar. lia. Qed.
+
+Ltac ifs := repeat match goal with |- context[if ?b then _ else _] => let E := fresh "E" in destruct b eqn:E; try lia end.
+(* the strict decoder inverts the encoder, code point by code point *)
+Lemma utf8_dec_cp c t : scalar c = true -> utf8_dec (utf8_cp c ++ t) = ocons c (utf8_dec t).
+Proof. unfold scalar, utf8_cp. intros H.
+  destruct (c <? 128) eqn:E1; [cbn [app utf8_dec]; rewrite E1; reflexivity|].
+  pose proof (N.div_mod' c 64) as D0. pose proof (N.mod_lt c 64 ltac:(lia)) as M0.
+  destruct (c <? 2048) eqn:E2.
+  { set (q := c / 64) in *. set (r := c mod 64) in *. clearbody q r. cbn [app utf8_dec]. unfold is_cont. ifs. f_equal. lia. }
+  pose proof (N.div_mod' (c / 64) 64) as D1. pose proof (N.mod_lt (c / 64) 64 ltac:(lia)) as M1.
+  destruct (c <? 65536) eqn:E3.
+  { replace (c / 4096) with (c / 64 / 64) by (rewrite N.div_div by lia; reflexivity).
+    set (q0 := c / 64) in *. set (r0 := c mod 64) in *. set (q1 := q0 / 64) in *. set (r1 := q0 mod 64) in *. clearbody q0 r0 q1 r1.
+    cbn [app utf8_dec]. unfold is_cont. cbv zeta. ifs. f_equal. lia. }
+  pose proof (N.div_mod' (c / 64 / 64) 64) as D2. pose proof (N.mod_lt (c / 64 / 64) 64 ltac:(lia)) as M2.
+  replace (c / 262144) with (c / 64 / 64 / 64) by (rewrite !N.div_div by lia; reflexivity).
+  replace (c / 4096) with (c / 64 / 64) by (rewrite N.div_div by lia; reflexivity).
+  set (q0 := c / 64) in *. set (r0 := c mod 64) in *. set (q1 := q0 / 64) in *. set (r1 := q0 mod 64) in *.
+  set (q2 := q1 / 64) in *. set (r2 := q1 mod 64) in *. clearbody q0 r0 q1 r1 q2 r2.
+  cbn [app utf8_dec]. unfold is_cont. cbv zeta. ifs. f_equal. lia. Qed.
+Lemma utf8_roundtrip s : text s -> utf8_dec (utf8 s) = Some s.
+Proof. induction 1 as [|c t Hc _ IH]; [reflexivity|]. cbn [utf8 flat_map]. fold (utf8 t). rewrite utf8_dec_cp by exact Hc. rewrite IH. reflexivity. Qed.
+Definition blen (s:str) : N := N.of_nat (length (utf8 s)).       (* len(s.encode('utf-8')) *)
+Lemma blen_ascii s : ascii s -> blen s = N.of_nat (length s).
+Proof. intros H. unfold blen. rewrite utf8_ascii by exact H. reflexivity. Qed.
+
+(* write_string / read_string (after fixes/C15_string_length_in_bytes.diff): the 2-byte prefix is the number of UTF-8 BYTES, which is what
+   the reader takes.  Domain: any text whose encoding is shorter than 2^16 bytes *)
+Definition dec_str (l:list byte) : option (str * list byte) :=
+  do (n, r) <- dec_be 2 l; do (b, r') <- take_n (N.to_nat n) r;
+  match utf8_dec b with Some s => Some (s, r') | None => None end.
 Definition c_str : codec str :=
- {| enc := fun s => enc_be 2 (N.of_nat (length s)) ++ utf8 s;
-    dec := fun l => do (n, r) <- dec_be 2 l; do (b, r') <- take_n (N.to_nat n) r;
-                    match utf8_dec b with Some s => Some (s, r') | None => None end;
-    dom := fun s => N.of_nat (length s) < 65536 /\ ascii s |}.
+ {| enc := fun s => enc_be 2 (blen s) ++ utf8 s;
+    dec := dec_str;
+    dom := fun s => blen s < 65536 /\ text s |}.
 Lemma rt_str : rt c_str.
-Proof. intros s rest [Hl Ha]. cbn [enc dec c_str]. rewrite <- app_assoc, be_roundtrip by exact Hl.
+Proof. intros s rest [Hl Ha]. cbn [enc dec c_str]. unfold dec_str, blen in *. rewrite <- app_assoc, be_roundtrip by exact Hl.
+  rewrite Nnat.Nat2N.id, take_n_app, utf8_roundtrip by exact Ha. reflexivity. Qed.
+(* the code before that repair: the prefix is the number of CHARACTERS; the reader is the same.  Only ASCII strings survive *)
+Definition c_str_unrepaired : codec str :=
+ {| enc := fun s => enc_be 2 (N.of_nat (length s)) ++ utf8 s;
+    dec := dec_str;
+    dom := fun s => N.of_nat (length s) < 65536 /\ ascii s |}.
+Lemma rt_str_unrepaired : rt c_str_unrepaired.
+Proof. intros s rest [Hl Ha]. cbn [enc dec c_str_unrepaired]. unfold dec_str. rewrite <- app_assoc, be_roundtrip by exact Hl.
   rewrite utf8_ascii by exact Ha. rewrite Nnat.Nat2N.id, take_n_app, utf8_dec_ascii by exact Ha. reflexivity. Qed.
-Definition write_string_chk (s:str) : outcome (list byte) :=
-  if N.of_nat (length s) <? 65536 then Ok (enc c_str s) else Raises E_OVERFLOW.
+(* on ASCII strings the two writers produce the same bytes *)
+Lemma enc_str_ascii s : ascii s -> enc c_str s = enc c_str_unrepaired s.
+Proof. intros H. cbn [enc c_str c_str_unrepaired]. rewrite blen_ascii by exact H. reflexivity. Qed.
+(* sb = true: repaired writer; an encoding of 2^16 bytes or more does not fit the prefix (OverflowError of int.to_bytes) *)
+Definition write_string_chk (sb:bool) (s:str) : outcome (list byte) :=
+  if sb then (if blen s <? 65536 then Ok (enc c_str s) else Raises E_OVERFLOW)
+  else (if N.of_nat (length s) <? 65536 then Ok (enc c_str_unrepaired s) else Raises E_OVERFLOW).
 
 (* write_string_or_none / read_string_or_none: length 65535 is the None marker *)
+Definition dec_str_opt (l:list byte) : option (option str * list byte) :=
+  do (n, r) <- dec_be 2 l;
+  if n =? 65535 then Some (None, r)
+  else do (b, r') <- take_n (N.to_nat n) r;
+       match utf8_dec b with Some s => Some (Some s, r') | None => None end.
 Definition c_str_opt : codec (option str) :=
  {| enc := fun o => match o with None => enc_be 2 65535 | Some s => enc c_str s end;
-    dec := fun l => do (n, r) <- dec_be 2 l;
-                    if n =? 65535 then Some (None, r)
-                    else do (b, r') <- take_n (N.to_nat n) r;
-                         match utf8_dec b with Some s => Some (Some s, r') | None => None end;
-    dom := fun o => match o with None => True | Some s => N.of_nat (length s) < 65535 /\ ascii s end |}.
+    dec := dec_str_opt;
+    dom := fun o => match o with None => True | Some s => blen s < 65535 /\ text s end |}.
 Lemma rt_str_opt : rt c_str_opt.
-Proof. intros [s|] rest D; cbn [enc dec c_str_opt c_str].
+Proof. intros [s|] rest D; cbn [enc dec c_str_opt c_str]; unfold dec_str_opt.
+  - destruct D as [Hl Ha]. unfold blen in *. rewrite <- app_assoc, be_roundtrip by (change (256 ^ N.of_nat 2) with 65536; lia).
+    destruct (N.of_nat (length (utf8 s)) =? 65535) eqn:E; [lia|].
+    rewrite Nnat.Nat2N.id, take_n_app, utf8_roundtrip by exact Ha. reflexivity.
+  - rewrite be_roundtrip by (vm_compute; reflexivity). reflexivity. Qed.
+Definition c_str_opt_unrepaired : codec (option str) :=
+ {| enc := fun o => match o with None => enc_be 2 65535 | Some s => enc c_str_unrepaired s end;
+    dec := dec_str_opt;
+    dom := fun o => match o with None => True | Some s => N.of_nat (length s) < 65535 /\ ascii s end |}.
+Lemma rt_str_opt_unrepaired : rt c_str_opt_unrepaired.
+Proof. intros [s|] rest D; cbn [enc dec c_str_opt_unrepaired c_str_unrepaired]; unfold dec_str_opt.
   - destruct D as [Hl Ha]. rewrite <- app_assoc, be_roundtrip by (change (256 ^ N.of_nat 2) with 65536; lia).
     destruct (N.of_nat (length s) =? 65535) eqn:E; [lia|].
     rewrite utf8_ascii by exact Ha. rewrite Nnat.Nat2N.id, take_n_app, utf8_dec_ascii by exact Ha. reflexivity.
   - rewrite be_roundtrip by (vm_compute; reflexivity). reflexivity. Qed.
-Definition write_string_or_none_chk (o:option str) : outcome (list byte) :=
-  match o with None => Ok (enc c_str_opt None) | Some s => write_string_chk s end.
+Definition write_string_or_none_chk (sb:bool) (o:option str) : outcome (list byte) :=
+  match o with None => Ok (enc c_str_opt None) | Some s => write_string_chk sb s end.
 
-(* outside the documented domain *)
+(* outside the documented domain of the UNREPAIRED writer (known finding C15:string-length-in-characters) *)
 (* "e-acute": one character, two bytes; the reader takes one byte and fails to decode it *)
-Lemma non_ascii_string_refuted : dec c_str (enc c_str [233]) = None.
-Proof. vm_compute. reflexivity. Qed.
+Lemma non_ascii_string_refuted : dec c_str_unrepaired (enc c_str_unrepaired [233]) = None /\ dec c_str (enc c_str [233]) = Some ([233], []).
+Proof. vm_compute. split; reflexivity. Qed.
 (* "e-acute a": the reader returns a different string and leaves one byte unread: the stream is misaligned *)
-Lemma non_ascii_string_misaligned_refuted : forall rest, dec c_str (enc c_str [233; 97] ++ rest) = Some ([233], 97 :: rest).
-Proof. intros rest. vm_compute. reflexivity. Qed.
-(* a string of exactly 65535 characters written by write_string_or_none reads back as None, its bytes stay unread *)
-Lemma len65535_or_none_refuted : forall s, N.of_nat (length s) = 65535 ->
+Lemma non_ascii_string_misaligned_refuted : forall rest,
+  dec c_str_unrepaired (enc c_str_unrepaired [233; 97] ++ rest) = Some ([233], 97 :: rest) /\ dec c_str (enc c_str [233; 97] ++ rest) = Some ([233; 97], rest).
+Proof. intros rest. vm_compute. split; reflexivity. Qed.
+(* a string of exactly 65535 bytes written by write_string_or_none reads back as None, its bytes stay unread *)
+Lemma len65535_or_none_refuted : forall s, blen s = 65535 ->
   forall rest, dec c_str_opt (enc c_str_opt (Some s) ++ rest) = Some (None, utf8 s ++ rest).
-Proof. intros s H rest. cbn [enc dec c_str_opt c_str]. rewrite H. rewrite <- app_assoc.
+Proof. intros s H rest. cbn [enc dec c_str_opt c_str]. unfold dec_str_opt. rewrite H. rewrite <- app_assoc.
   rewrite be_roundtrip by (vm_compute; reflexivity). rewrite N.eqb_refl. reflexivity. Qed.
 
 (* ------------------------------------------------------------------ bool arrays: one byte, bit i = element i *)
@@ -780,31 +840,37 @@ Proof. intros H. unfold enc_penalty, dec_penalty, Qtrunc.
 Definition u32 (v:Z) : Prop := (0 <= v < 4294967296)%Z.
 Definition u16 (v:Z) : Prop := (0 <= v < 65536)%Z.
 Definition s31 (v:Z) : Prop := (-2147483648 < v < 2147483648)%Z.
+(* strings of the documented domain: ANY text (list of Unicode scalar values) whose UTF-8 encoding is shorter than 2^16 bytes;
+   gene / transcript ids: None, or a text whose encoding is shorter than 65 535 bytes (65 535 is the None marker) *)
+Definition short_text (s:str) : Prop := blen s < 65536 /\ text s.
+Definition id_or_none (o:option str) : Prop := match o with None => True | Some s => blen s < 65535 /\ text s end.
+(* the domain before fixes/C15_string_length_in_bytes.diff: ASCII only *)
 Definition short_ascii (s:str) : Prop := N.of_nat (length s) < 65536 /\ ascii s.
-Definition id_or_none (o:option str) : Prop := match o with None => True | Some s => N.of_nat (length s) < 65535 /\ ascii s end.
+Lemma short_ascii_text s : short_ascii s -> short_text s.
+Proof. intros [H A]. split; [rewrite blen_ascii by exact A; exact H|apply ascii_text, A]. Qed.
 Definition count32 {A} (l:list A) : Prop := N.of_nat (length l) < 4294967296.
 Definition list_wf {A} (P:A -> Prop) (l:list A) : Prop := count32 l /\ Forall P l.
 Definition event_wf (e:event) : Prop :=
   u32 (fst (ev_iso e)) /\ u32 (snd (ev_iso e)) /\ u32 (fst (ev_read e)) /\ u32 (snd (ev_read e)) /\ s31 (ev_info e).
 Definition match_wf (m:imatch) : Prop :=
-  id_or_none (m_gene m) /\ id_or_none (m_tr m) /\ short_ascii (m_strand m) /\ u32 (m_penalty m) /\ list_wf event_wf (m_events m).
+  id_or_none (m_gene m) /\ id_or_none (m_tr m) /\ short_text (m_strand m) /\ u32 (m_penalty m) /\ list_wf event_wf (m_events m).
 Definition dval_wf (sg:bool) (v:dval) : Prop :=
-  match v with DInt x => dint_dom sg x | DStr s => short_ascii s | DPair a b => dint_dom sg a /\ dint_dom sg b end.
+  match v with DInt x => dint_dom sg x | DStr s => short_text s | DPair a b => dint_dom sg a /\ dint_dom sg b end.
 Definition dict_wf (sg:bool) (d:dict) : Prop :=
-  list_wf (fun e => short_ascii (fst e) /\ dval_wf sg (snd e)) d /\ NoDup (map fst d).
+  list_wf (fun e => short_text (fst e) /\ dval_wf sg (snd e)) d /\ NoDup (map fst d).
 Definition pair_wf (p:Z*Z) : Prop := u32 (fst p) /\ u32 (snd p).
 Definition ra_wf (sg:bool) (a:rassign) : Prop :=
-  u32 (ra_id a) /\ short_ascii (ra_read_id a) /\ pair_wf (ra_region a) /\
+  u32 (ra_id a) /\ short_text (ra_read_id a) /\ pair_wf (ra_region a) /\
   list_wf pair_wf (ra_exons a) /\ list_wf pair_wf (ra_corrected a) /\ length (ra_flags a) = 3%nat /\
   s31 (pa1 (ra_polya a)) /\ s31 (pa2 (ra_polya a)) /\ s31 (pa3 (ra_polya a)) /\ s31 (pa4 (ra_polya a)) /\
-  short_ascii (ra_group a) /\ short_ascii (ra_mapped_strand a) /\ short_ascii (ra_strand a) /\ short_ascii (ra_chr a) /\
+  short_text (ra_group a) /\ short_text (ra_mapped_strand a) /\ short_text (ra_strand a) /\ short_text (ra_chr a) /\
   u16 (ra_mapq a) /\ list_wf match_wf (ra_matches a) /\ dict_wf sg (ra_info a) /\ dict_wf sg (ra_attrs a) /\
   list_wf s31 (ra_exon_profile a) /\ list_wf s31 (ra_intron_profile a).
 Definition basic_wf (b:bassign) : Prop :=
-  u32 (b_id b) /\ short_ascii (b_read_id b) /\ short_ascii (b_chr b) /\ u32 (b_start b) /\ u32 (b_end b) /\ pair_wf (b_region b) /\
-  length (b_flags b) = 2%nat /\ u32 (b_penalty b) /\ list_wf short_ascii (b_genes b) /\ list_wf short_ascii (b_isoforms b).
+  u32 (b_id b) /\ short_text (b_read_id b) /\ short_text (b_chr b) /\ u32 (b_start b) /\ u32 (b_end b) /\ pair_wf (b_region b) /\
+  length (b_flags b) = 2%nat /\ u32 (b_penalty b) /\ list_wf short_text (b_genes b) /\ list_wf short_text (b_isoforms b).
 Definition ghead_wf (rr:bool) (g:ghead) : Prop :=
-  u32 (g_delta g) /\ list_wf short_ascii (g_genes g) /\ short_ascii (g_chr g) /\ u32 (g_start g) /\ u32 (g_end g) /\
+  u32 (g_delta g) /\ list_wf short_text (g_genes g) /\ short_text (g_chr g) /\ u32 (g_start g) /\ u32 (g_end g) /\
   (if rr then u32 (g_rstart g) /\ u32 (g_rend g) else g_rstart g = g_start g /\ g_rend g = g_end g).
 
 Lemma list_wf_dom {A} (c:codec A) (P:A -> Prop) l : (forall x, P x -> dom c x) -> list_wf P l -> dom (c_listg c) l.
@@ -834,11 +900,11 @@ Proof. intros (H1 & H2 & H3 & H4 & H5 & [H6 H6'] & H7 & H8 & H9 & H10).
   unfold c_basic, dom, dom_basic. fold (@dom Z). fold (@dom str). fold (@dom (list bool)). fold (@dom RAT). fold (@dom (list str)).
   repeat match goal with |- _ /\ _ => split end; try assumption; try apply rat_dom_all;
     try (repeat constructor; fail);
-    try (apply (list_wf_dom c_str short_ascii); [intros x Hx; exact Hx|assumption]).
+    try (apply (list_wf_dom c_str short_text); [intros x Hx; exact Hx|assumption]).
   split; [exact H7|repeat constructor]. Qed.
 Lemma ghead_wf_dom rr g : ghead_wf rr g -> dom (c_ghead rr) g.
 Proof. intros (H1 & H2 & H3 & H4 & H5 & H6). split; [exact H1|]. split; [|split; [exact H3|split; [exact H4|split; [exact H5|]]]].
-  - apply (list_wf_dom c_str short_ascii); [intros x Hx; exact Hx|exact H2].
+  - apply (list_wf_dom c_str short_text); [intros x Hx; exact Hx|exact H2].
   - destruct rr; exact H6. Qed.
 Lemma penalties_nonneg_of_wf sg a : ra_wf sg a -> Forall (fun m => (0 <= m_penalty m)%Z) (ra_matches a).
 Proof. intros H. destruct H as (_ & _ & _ & _ & _ & _ & _ & _ & _ & _ & _ & _ & _ & _ & _ & [_ H16] & _).
